@@ -185,6 +185,7 @@ class Exec:
     # ------------------------------------------------------------------ blocks / statements
     def run_block(self, stmts, st):
         outs = [Out("normal", st)]
+        cuts = getattr(self, "cuts", None) or {}
         for s in stmts:
             nxt = []
             for o in outs:
@@ -193,6 +194,14 @@ class Exec:
                 else:
                     nxt.extend(self.stmt(s, o.st))
             outs = nxt
+            cut = cuts.get(getattr(s, "end_lineno", None)) or cuts.get(getattr(s, "lineno", None))
+            if cut is not None:
+                # sidecar cut point: intermediate facts are proved here (small context) and carried forward as hypotheses
+                for o in outs:
+                    if o.kind == "normal":
+                        for nm, f in cut(self, o.st):
+                            self.oblige(o.st, nm, f, "assert", s.lineno)
+                            o.st.pc.append(f)
         return outs
 
     def stmt(self, s, st):
@@ -350,9 +359,17 @@ class Exec:
         raise Unsupported(f"assignment target {ast.dump(tgt)[:80]}")
 
     # ------------------------------------------------------------------ loops
-    def for_loop(self, s, st):
+    def static_ordinal(self, s):
+        """loops are numbered by their position in the function's source (1-based, pre-order), not by the order in
+        which paths happen to reach them"""
+        idx = getattr(self, "loop_index", None)
+        if idx and id(s) in idx:
+            return idx[id(s)]
         self.loop_ordinal += 1
-        ordinal = self.loop_ordinal
+        return self.loop_ordinal
+
+    def for_loop(self, s, st):
+        ordinal = self.static_ordinal(s)
         spec = self.loop_specs.get(ordinal)
         res = []
         for o in self.expr_outs(s.iter, st):
@@ -457,11 +474,11 @@ class Exec:
         return res
 
     def while_loop(self, s, st):
-        self.loop_ordinal += 1
-        spec = self.loop_specs.get(self.loop_ordinal)
+        ordinal = self.static_ordinal(s)
+        spec = self.loop_specs.get(ordinal)
         if spec is None:
             raise Unsupported(f"while loop at line {s.lineno} needs an invariant")
-        return spec(self, s, st, None, self.loop_ordinal)
+        return spec(self, s, st, None, ordinal)
 
     # -- loops with a sidecar invariant --------------------------------------------------------------
     def havoc(self, st, locals_, objs):
@@ -641,7 +658,8 @@ class Exec:
         sol.add(self.ctx.axioms)
         sol.add(st.pc)
         sol.add(c)
-        r = sol.check()
+        from pyvc.verify import hard_check
+        r = hard_check(sol, int(os.environ.get("PYVC_FEAS_MS", "80")))
         FEAS_STATS["calls"] += 1
         FEAS_STATS["time"] += _t.time() - t0
         if r == z3.unknown:
@@ -816,6 +834,9 @@ class Exec:
                 for f in guard_st.pc[mark:]:
                     st.pc.append(z3.Implies(z3.And(guards), f))
             acc.append(t)
+            ts = z3.simplify(t) if z3.is_expr(t) else t
+            if (is_or and z3.is_true(ts)) or (not is_or and z3.is_false(ts)):
+                break  # python does not evaluate the remaining operands
             guards.append(z3.Not(t) if is_or else t)
             guard_st = guard_st.fork(guards[-1])
         return z3.Or(acc) if is_or else z3.And(acc)
@@ -1140,6 +1161,9 @@ class Exec:
                 return Coll(c.mem, cnt=None, elems=c.elems, is_list=True)
             if nm in ("ValueError", "KeyError", "NotImplementedError", "OSError", "ImportError"):
                 return Opaque(nm)
+            if nm == "Circuit":
+                from pyvc import models
+                return models.new_circuit(self, st, e)
             if nm in st.env and isinstance(st.env[nm], FuncV):
                 return self.call_local(st.env[nm], e, st)
             if nm in self.summaries:
